@@ -84,6 +84,16 @@ def splits(total, r, ctx):
 
 
 def run(ctx):
+    # a transport object that has already wrapped / sent an APDU and whose addresses are then changed uses the addresses it has now
+    for (c1, s1, c2, s2) in ((16, 1, 1, 17), (1, 1, 65535, 0), (16, 1, 16, 1)):
+        t1 = transport(c1, s1)
+        guarded(lambda: t1.wrap(b"first"))
+        t1.client_logical_address, t1.server_logical_address = c2, s2
+        o = guarded(lambda: t1.wrap(b"second!"))
+        fresh = guarded(lambda: transport(c2, s2).wrap(b"second!"))
+        ctx.tried("wrap_after_address_change", key=(c1, s1, c2, s2))
+        if _val(o) != _val(fresh):
+            ctx.fail("header_stale_after_address_change", {"reuse": [c1, s1, c2, s2]}, lib.v_text(_val(fresh))[:100], lib.v_text(_val(o))[:100])
     r = lib.rng("C17")
     hv = [[s, d, l, v] for s in (0, 1, 16, 65535, 65536) for d in (0, 1, 65535, 70000) for l in EDGE + [65536] for v in (1, 0, 2, 65535, 65536)]
     hv += [[r.randrange(65536), r.randrange(65536), r.randrange(65536), r.choice([1, r.randrange(65536)])] for _ in range(ctx.scale(3000, 100000))]
@@ -136,6 +146,12 @@ def run(ctx):
 
 def replay(ctx, rp):
     c = rp["case"]
+    if "reuse" in c:
+        c1, s1, c2, s2 = c["reuse"]
+        t1 = transport(c1, s1)
+        guarded(lambda: t1.wrap(b"first"))
+        t1.client_logical_address, t1.server_logical_address = c2, s2
+        return _val(guarded(lambda: t1.wrap(b"second!"))) != _val(guarded(lambda: transport(c2, s2).wrap(b"second!")))
     r = lib.rng("replay")
     l = c.get("payload_len", c.get("len", 5))
     payload = bytes(r.getrandbits(8) for _ in range(l))
